@@ -61,6 +61,21 @@ def compare_exact(W, rec, contexts, kind_prefix, where):
             if c.obj is not e.mgr or bool(c.is_async) != bool(e.is_async) or bool(c.is_exiting) != (e.state == "exiting"):
                 ok = False
                 break
+    if not ok and len(contexts) == len(sh):
+        # managers whose exit method is not bound (staticmethod): the frame holds a plain
+        # function, nothing refers to the manager; obj=None is all that can be said (K2)
+        only_unknowable = True
+        for c, e in zip(contexts, sh):
+            same = c.obj is e.mgr or (c.obj is None and getattr(e.mgr, "unbound_exit", False))
+            if not same or bool(c.is_async) != bool(e.is_async) or bool(c.is_exiting) != (e.state == "exiting"):
+                only_unknowable = False
+                break
+        if only_unknowable:
+            raise Violation(
+                "%s_obj_unknowable_unbound_exit" % kind_prefix,
+                "%s: frame %s: the manager(s) whose __exit__/__aexit__ is a staticmethod are reported with obj=None; everything else is exact" % (where, rec),
+                {"frame": repr(rec), "where": where},
+            )
     if not ok:
         got = ctx_summary(W, contexts)
         exp = shadow_summary(W, rec)
